@@ -11,6 +11,7 @@ import (
 	"encoding/binary"
 	"fmt"
 	"io"
+	"log"
 	"net"
 	"net/http"
 	"net/http/httptest"
@@ -29,8 +30,11 @@ type l2server struct {
 	inst *gwInstance
 	mu   sync.Mutex
 	logs map[string][]string // connection id -> callback log
-	errs *strings.Builder    // http.Server error log (panics served)
+	errlog lockedWriter      // http.Server error log ("http: panic serving ...")
 }
+
+// panics counts the handler panics net/http recovered since the server started.
+func (s *l2server) panics() int { return strings.Count(s.errlog.String(), "panic serving") }
 
 type lockedWriter struct {
 	mu sync.Mutex
@@ -89,7 +93,7 @@ func newL2Server(tokenAuth bool, sendBuf int) *l2server {
 	s.gw = gw
 	h := web.EnrichContext(http.HandlerFunc(gw.HandleGatewayProtocol))
 	s.srv = httptest.NewUnstartedServer(h)
-	s.srv.Config.ErrorLog = nil
+	s.srv.Config.ErrorLog = log.New(&s.errlog, "", 0) // "http: panic serving ..." lines
 	s.srv.Start()
 	port := s.srv.Listener.Addr().(*net.TCPAddr).Port
 	s.inst = &gwInstance{port: port, exited: make(chan struct{})}
